@@ -7,6 +7,7 @@ W=${1:-8}; GLOB=${2:-*}
 fail=0
 for d in seeded/$GLOB/; do
   name=$(basename "$d")
+  if python3 -c "import json,sys;sys.exit(0 if json.load(open('$d/meta.json')).get('superseded_by_fix') else 1)"; then echo "$name skipped (neutralised by a later fix)"; continue; fi
   chks=$(python3 -c "import json;m=json.load(open('$d/meta.json'));print(' '.join(m['caught_by'] or [m['breaks_property']]))")
   wt=/tmp/seedreg-$name
   git -C /repo worktree remove --force "$wt" >/dev/null 2>&1
